@@ -87,7 +87,8 @@ Inductive event :=
 | EEnd (k : nat) (r : option (nat * nat * bool))
                                           (* client k finished: Some (marker, site, complete) / transport error *)
 | EObs (a : nat) (isopen : bool) (sd : nat) (* listening socket at a: exists?, identity (bind generation) *)
-| EDrain (a : nat).                       (* "[ERROR] Stopping <a>: context deadline exceeded" logged by old.Stop() *)
+| EDrain (a : nat)                        (* "[ERROR] Stopping <a>: context deadline exceeded" logged by old.Stop() *)
+| EFds (a n : nat).                       (* the process holds n descriptors of the listening socket at a *)
 
 (* what Restart returns for a configuration of the given fate *)
 Definition ret_of_fate (fate : nat) : nat := if Nat.eqb fate 3 then 1 else fate.
@@ -120,7 +121,8 @@ Inductive label :=
 | LLoadFail | LLoadOk | LDup | LBind | LListenFail | LAdv | LSpawn | LStop | LReturn
 | LNew (a site : nat) | LConnect (k : nat) | LAccept (k i : nat) | LAnswer (k : nat) | LRecv (k : nat)
 | LObs (a : nat)
-| LCbOk | LCbFail | LStopTimeout.
+| LCbOk | LCbFail | LStopTimeout
+| LFds (a : nat).
 
 Definition with_rst (s : state) (r : rphase) : state :=
   {| fdh := fdh s; sid := sid s; ext := ext s; acc := acc s; cfgs := cfgs s; cur := cur s;
@@ -316,6 +318,7 @@ Definition step (s : state) (l : label) : option state :=
       | None => None
       end
   | LObs a => Some (with_hist s (EObs a (negb (isnil (fdh s a))) (sid s a)))
+  | LFds a => Some (with_hist s (EFds a (length (fdh s a))))
   end.
 
 Fixpoint run (s : state) (ls : list label) : option state :=
@@ -477,6 +480,9 @@ Definition spec_step (p : sp) (e : event) : sp :=
       | Some _ => p
       | None => sp_fail p
       end
+  (* how many descriptors the process holds is not part of the property (it is compared with
+     the model's count by [accepts]: a descriptor that leaks is a model/implementation difference) *)
+  | EFds _ _ => p
   end.
 
 Definition spec_scan (a0 : list nat) (evs : list event) : sp := fold_left spec_step evs (sp_init a0).
@@ -565,6 +571,7 @@ Definition labels_for (ans : nat -> option nat) (ret : option nat) (s : state) (
       | RStop n todo => stop_until a todo
       | _ => [LStopTimeout]  (* not enabled: the history is rejected *)
       end
+  | EFds a _ => [LFds a]
   | EStart k a site =>
       (* answered later by an instance that binds the address itself: the connect waits for it *)
       LNew a site ::
@@ -602,6 +609,7 @@ Definition event_eqb (x y : event) : bool :=
       Nat.eqb k k' && Nat.eqb m m' && Nat.eqb s s' && bool_eqb c c'
   | EObs a o d, EObs a' o' d' => Nat.eqb a a' && bool_eqb o o' && Nat.eqb d d'
   | EDrain a, EDrain a' => Nat.eqb a a'
+  | EFds a n, EFds a' n' => Nat.eqb a a' && Nat.eqb n n'
   | _, _ => false
   end.
 
